@@ -125,9 +125,14 @@ func main() {
 	dir := flag.String("repo", "/repo", "repository root")
 	out := flag.String("out", "", "output Coq file for the lock graph")
 	fieldsOut := flag.String("fields", "", "output Coq file for the guarded-field access table of imapclient.Client (skips the lock graph)")
+	serverFieldsOut := flag.String("server-fields", "", "output Coq file for the guarded-field access table of the server's mutex-bearing structs (skips the lock graph)")
 	flag.Parse()
 	if *fieldsOut != "" {
-		fieldAccess(*dir, *fieldsOut)
+		fieldAccess(*dir, *fieldsOut, false)
+		return
+	}
+	if *serverFieldsOut != "" {
+		fieldAccess(*dir, *serverFieldsOut, true)
 		return
 	}
 	cfg := &packages.Config{Mode: packages.LoadAllSyntax, Dir: *dir, Env: append(os.Environ(), "GOFLAGS=-mod=mod", "GOPROXY=off")}
